@@ -34,6 +34,10 @@ pub fn check(tier: Tier) -> Check {
     // identifier flavour: the counters start next to a boundary of their encodings (DESIGN 4)
     parts.push(Part::new("C10/quota", json!({"depth": tier.pick(5, 7), "r": 2, "ids": [65534, 1]}), 0, tier.pick(25, 400)));
     parts.push(Part::new("C10/quota", json!({"depth": tier.pick(5, 7), "r": 3, "ids": [254, 1]}), 0, tier.pick(25, 400)));
+    // one Context, two connections: R1 on the first, R on the second
+    for (r1, r) in [(0u64, 1u64), (3, 1), (1, 2), (1, 3)] {
+        parts.push(Part::new("C10/quota", json!({"depth": tier.pick(4, 6), "r": r, "r1": r1}), 0, tier.pick(25, 400)));
+    }
     parts.push(Part::new("C10/fill", json!({"r": 65535}), 0, 120));
     parts.push(Part::new("C10/fill", json!({"r": 0}), 0, 120));
     parts.push(Part::new("C10/fill", json!({"r": 300}), 0, 120));
@@ -41,7 +45,7 @@ pub fn check(tier: Tier) -> Check {
         also_rel: false,
         property: "C10",
         level: "model_checking",
-        rule: "R in {1,2,3} (announced in a bare CONNACK, and with Session Present = 1 among many other CONNECT/CONNACK settings): all histories of QoS 0/1/2 publishes, pings, subscribes, unsubscribes and acknowledgements (0x00, 0x10 and failing, for any outstanding operation) up to the stated depth; R in {65535, absent, 300}: deterministic fill - refuse - drain - refill runs through the real client; accept/refuse decisions and the wire must equal the model's; non-trivial = a publish was refused for quota or a slot was freed by a failing acknowledgement".into(),
+        rule: "R in {1,2,3} (announced in a bare CONNACK, and with Session Present = 1 among many other CONNECT/CONNACK settings): all histories of QoS 0/1/2 publishes, pings, subscribes, unsubscribes and acknowledgements (0x00, 0x10 and failing, for any outstanding operation) up to the stated depth; the same on the second connection of a Context whose first connection announced a different R; R in {65535, absent, 300}: deterministic fill - refuse - drain - refill runs through the real client; accept/refuse decisions and the wire must equal the model's; non-trivial = a publish was refused for quota or a slot was freed by a failing acknowledgement".into(),
         assumptions: vec!["conformant broker".into()],
         parts,
     }
@@ -117,7 +121,41 @@ pub fn scenario(name: &str, params: &Value) -> Scenario {
         if let Some(m) = m {
             cprops.push(pvcore::refcodec::Prop::u32(pvcore::refcodec::P_MAXIMUM_PACKET_SIZE, m as u32));
         }
-        sys.bring_up_fl(cprops, params["flavour"].as_u64().unwrap_or(0));
+        if let Some(r1) = params["r1"].as_u64() {
+            // a second connection of the same Context: the quota is the one its CONNACK announces
+            sys.auto_exit = false;
+            sys.bring_up(if r1 == 0 { vec![] } else { receive_max(r1 as u16) });
+            for q in [1u8, 2] {
+                sys.apply(Ev::Start(OpSpec::Publish(PublishSpec::simple(q, "t", b"first"))));
+                let o = sys.m.ops.len() - 1;
+                while let Some(p) = sys.ack_for(o, 0, "") {
+                    sys.apply(Ev::Deliver(p));
+                    if sys.dead {
+                        break;
+                    }
+                }
+            }
+            sys.apply(Ev::Eof);
+            if !sys.dead {
+                sys.events.push("Reconnect".into());
+                sys.classes.push("Reconnect".into());
+                sys.w.new_wire();
+                sys.m.new_wire();
+                sys.connect_with(
+                    ConnectSpec::default(),
+                    SPacket::Connack {
+                        session_present: false,
+                        reason: 0,
+                        props: cprops,
+                    },
+                );
+            }
+            if !sys.dead {
+                sys.start_run();
+            }
+        } else {
+            sys.bring_up_fl(cprops, params["flavour"].as_u64().unwrap_or(0));
+        }
         let mut specs = vec![
             OpSpec::Publish(PublishSpec::simple(0, "t", b"q0")),
             OpSpec::Publish(PublishSpec::simple(1, "t", b"q1")),
